@@ -989,7 +989,10 @@ class Bada3FuelBurnModel(BaseFuelBurnModel):
                 )
             )
 
-            mass[0] = initial_mass
+            # Move the whole profile to the new initial mass: the burn along
+            # the flight is unchanged, so the profile stays consistent (and
+            # non-increasing) also when it is returned right after this step.
+            mass += initial_mass - mass[0]
 
             final_mass_pct_change = (
                 np.abs(mass[-1] - old_final_mass) / old_final_mass
@@ -1107,7 +1110,10 @@ class Bada3FuelBurnModel(BaseFuelBurnModel):
                 )
             )
 
-            mass[0] = initial_mass
+            # Move the whole profile to the new initial mass: the burn along
+            # the flight is unchanged, so the profile stays consistent (and
+            # non-increasing) also when it is returned right after this step.
+            mass += initial_mass - mass[0]
 
             final_mass_pct_change = (
                 np.abs(mass[-1] - old_final_mass) / old_final_mass
